@@ -238,10 +238,13 @@ class Grid(col.MutableSequence):
         '''
         Reindex the grid if a user, update directly an id of a row
         '''
-        self._index = {}
+        index = {}
         for item in self._row:
             if "id" in item:
-                self._index[str(item["id"])] = item
+                index[str(item["id"])] = item
+        # Publish the index once complete, a concurrent lookup (filters
+        # following a Ref on another thread) must not see it half built.
+        self._index = index
 
     # FIXME
     def extend(self, values):
